@@ -4,6 +4,7 @@ import Ufw.Tie.EndpFns.Common
 import Ufw.Tie.EndpFns.SinkAdapt
 import Ufw.Tie.EndpFns.SourceAdapt
 import Ufw.Tie.EndpFns.SinkPutChunk
+import Ufw.Tie.EndpFns.SourceGetChunk
 #print axioms Ufw.Props.C17.get_chunk_exact
 #print axioms Ufw.Props.C17.get_chunk_refuses
 #print axioms Ufw.Props.C17.get_atmost_le
@@ -54,3 +55,10 @@ import Ufw.Tie.EndpFns.SinkPutChunk
 #print axioms Ufw.Tie.EndpFns.ofNat_toInt
 #print axioms Ufw.Tie.EndpFns.put_loop
 #print axioms Ufw.Tie.EndpFns.gen_sink_put_chunk
+#print axioms Ufw.Tie.EndpFns.src_chunk_call
+#print axioms Ufw.Tie.EndpFns.src_call_facts
+#print axioms Ufw.Tie.EndpFns.source_adapt_facts
+#print axioms Ufw.Tie.EndpFns.once_src_facts
+#print axioms Ufw.Tie.EndpFns.gen_once_source_get_chunk
+#print axioms Ufw.Tie.EndpFns.get_loop
+#print axioms Ufw.Tie.EndpFns.gen_source_get_chunk
